@@ -1218,8 +1218,10 @@ class LiteralData(Packet):
         _bytes = bytearray()
         _bytes += super(LiteralData, self).__bytearray__()
         _bytes += self.format.encode('latin-1')
-        _bytes += bytearray([len(self.filename)])
-        _bytes += self.filename.encode('latin-1')
+        # the parser reads the name as UTF-8, and the length octet counts octets, not characters
+        filename = self.filename.encode('utf-8')
+        _bytes += bytearray([len(filename)])
+        _bytes += filename
         _bytes += self.int_to_bytes(calendar.timegm(self.mtime.utctimetuple()), 4)
         _bytes += self._contents
         return _bytes
